@@ -182,9 +182,9 @@ def run(ctx):
     else:
         jobs = [
             ("str-exhaustive", cfg_gen(esc, ["str"], INV_STR, alphabet=NARROW, maxlen=7)),
-            ("str-wide", cfg_gen(esc, ["str"], INV_STR, alphabet=WIDE, maxlen=5)),
+            ("str-wide", cfg_gen(esc, ["str"], INV_STR, alphabet=[t for t in WIDE if t != "."], maxlen=5)),
             ("str-near", cfg_gen(esc, ["near"], INV_STR)),
-            ("par-exhaustive", cfg_gen(esc, ["par"], INV_PAR, pmaxlen=6)),
+            ("par-exhaustive", cfg_gen(esc, ["par"], INV_PAR, palphabet=[t for t in PALPHA if t != "t"], pmaxlen=6)),
             ("par-catalogue", cfg_gen(esc, ["par"], INV_PAR, pmaxpairs=3)),
             ("res", cfg_gen(esc, ["res"], INV_RES, resqrt=("PHYSICS", "TECHNICAL", "ANY"), resqroles=("r", "s", "any"),
                             resentries=("e", "sub/e"))),
